@@ -90,6 +90,7 @@ func (c *Command) UnmarshalBinary(uplink bool, data []byte) error {
 	}
 
 	c.CID = CID(data[0])
+	c.Payload = nil
 
 	p, err := GetCommandPayload(uplink, c.CID)
 	if err != nil {
@@ -135,6 +136,7 @@ func (c Commands) MarshalBinary() ([]byte, error) {
 // UnmarshalBinary decodes a slice of bytes into a slice of commands.
 func (c *Commands) UnmarshalBinary(uplink bool, data []byte) error {
 	var i int
+	*c = nil
 
 	for i < len(data) {
 		var cmd Command
@@ -216,9 +218,7 @@ func (p *AppTimeReqPayload) UnmarshalBinary(data []byte) error {
 
 	p.DeviceTime = binary.LittleEndian.Uint32(data[0:4])
 	p.Param.TokenReq = uint8(data[4] & 0x0f)
-	if data[4]&(1<<4) != 0 {
-		p.Param.AnsRequired = true
-	}
+	p.Param.AnsRequired = data[4]&(1<<4) != 0
 
 	return nil
 }
@@ -326,9 +326,7 @@ func (p *DeviceAppTimePeriodicityAnsPayload) UnmarshalBinary(data []byte) error 
 	if len(data) < p.Size() {
 		return fmt.Errorf("lorawan/applayer/clocksync: %d bytes are expected", p.Size())
 	}
-	if data[0]&1 != 0 {
-		p.Status.NotSupported = true
-	}
+	p.Status.NotSupported = data[0]&1 != 0
 	p.Time = binary.LittleEndian.Uint32(data[1:5])
 	return nil
 }
